@@ -123,10 +123,47 @@ def c06_generate_processes(sc, simacv, profiles, k, seed, nproc):
     return results
 
 
+def c06_unsimulated(sc, profiles, k):
+    """`acv generate P` and `acv validate P D` of the UNINSTRUMENTED binary, k fresh processes each, real map
+    randomisation and real scheduling; validate output is compared with the dateCreated value blanked."""
+    import re, tempfile
+    from concurrent.futures import ThreadPoolExecutor
+    acv = sc.build("./cmd", "acv-plain", plain=True)
+    out = {"processes": 0, "profiles": 0, "violations": [], "un_simulated": True, "seed_replayable": False}
+
+    def one(prof):
+        ppath = prof["path"] if os.path.isabs(prof["path"]) else os.path.join(sc.src, prof["path"])
+        res = []
+        gens = set()
+        for _ in range(k):
+            p = subprocess.run([acv, "generate", ppath], capture_output=True, timeout=300)
+            gens.add((p.returncode, hashlib.sha256(p.stdout).hexdigest()))
+        res.append(("generate", len(gens), None))
+        if prof["data"]:
+            d = min(prof["data"], key=lambda x: x["size"])
+            dpath = d["path"] if os.path.isabs(d["path"]) else os.path.join(sc.src, d["path"])
+            vals = set()
+            for _ in range(max(2, k // 2)):
+                p = subprocess.run([acv, "validate", ppath, dpath], capture_output=True, timeout=300)
+                vals.add((p.returncode, hashlib.sha256(re.sub(rb'"dateCreated": "[^"]*"', b'"dateCreated": "T"', p.stdout)).hexdigest()))
+            res.append(("validate", len(vals), dpath))
+        return prof, res
+
+    with ThreadPoolExecutor(max_workers=vlib.NCPU) as ex:
+        for prof, res in ex.map(one, profiles):
+            out["profiles"] += 1
+            for what, distinct, dpath in res:
+                n = k if what == "generate" else max(2, k // 2)
+                out["processes"] += n
+                if distinct > 1:
+                    out["violations"].append({"profile": prof["id"], "path": prof["path"], "data": dpath, "what": what, "distinct": distinct, "runs": n})
+    return out
+
+
 def check_c06(tier, seed):
     t0 = time.time()
     sc = vlib.Scratch()
-    sc.prepare()
+    sc.prepare(plain=True)
     sc.corpus()
     harness = sc.build("./simharness", "simharness")
     simacv = sc.build("./cmd", "simacv")
@@ -170,6 +207,23 @@ def check_c06(tier, seed):
         print("VIOLATION property=C06 replay=%s" % path, flush=True)
         log("  " + rf["violation"]["detail"] + " profile=" + v["profile"])
         nviol += 1
+    # un-simulated cross-check: the shipped binary, real Go map randomisation, real fresh processes. It can only
+    # add findings; a difference found here is reported with a "run it k times" recipe, not a seed.
+    un = c06_unsimulated(sc, [p for p in profs if p["class"] in ("generated", "special", "production")][: (10 if tier == "quick" else 60)], 6 if tier == "quick" else 12)
+    for v in un["violations"]:
+        sig = "unsimulated_differs:" + v["what"]
+        km = vlib.match_known(known, sig) or vlib.match_known(known, "unsimulated_differs:*")
+        if km:
+            print("KNOWN-FINDING: property=C06 %s (%s)" % (km[1], sig), flush=True)
+            continue
+        if nviol >= 4:
+            continue
+        path = os.path.join(rdir, "C06-unsim-%s.json" % hashlib.sha256((v["what"] + v["profile"]).encode()).hexdigest()[:10])
+        json.dump({"property": "C06", "engine": "unsimulated", "seed": seed, "tree": sc.tree_hash, "profile": v["path"], "profile_id": v["profile"], "data": v.get("data"), "what": v["what"], "runs": v["runs"],
+                   "violation": {"class": "unsimulated_differs", "sig": sig, "detail": "the uninstrumented acv %s printed %d distinct outputs in %d fresh processes; not seed-replayable: run it that many times" % (v["what"], v["distinct"], v["runs"])}}, open(path, "w"), indent=1)
+        print("VIOLATION property=C06 replay=%s" % path, flush=True)
+        log("  uninstrumented acv %s on %s: %d distinct outputs in %d fresh processes" % (v["what"], v["profile"], v["distinct"], v["runs"]))
+        nviol += 1
     wall = time.time() - t0
     rule = ("engine A runs: one (profile, data, configuration, clock) validated repeatedly in one process, through a compiled profile, and by 1-4 concurrent tasks, "
             "with a seeded permutation at every map range and seeded task switches; each result compared byte-for-byte with a fresh canonical-order reference process. "
@@ -178,6 +232,7 @@ def check_c06(tier, seed):
     cov = base_coverage(agg, sc, rule, wall, {
         "generate_fresh_processes": g["processes"], "generate_profiles": g["profiles"], "generate_profiles_with_differing_output": len(g["violations"]),
         "probes_never_hit": [k for k in ("map_permuted",) if agg.stats.get(k, 0) == 0],
+        "unsimulated_cross_check": {k: v for k, v in un.items() if k != "violations"},
     })
     cov["evaluations"] = agg.runs + g["processes"]
     vlib.write_evidence("C06", tier, seed, "exploration", cov, wall, nviol,
